@@ -32,8 +32,15 @@ class AbstractConstraint(object):
             self._testValue(value, idx)
 
         except error.ValueConstraintError:
+            try:
+                cause = '%r' % (sys.exc_info()[1],)
+
+            except ValueError:
+                # an integer with more digits than Python agrees to print
+                cause = '<value too large to print>'
+
             raise error.ValueConstraintError(
-                '%s failed at: %r' % (self, sys.exc_info()[1])
+                '%s failed at: %s' % (self, cause)
             )
 
     def __repr__(self):
